@@ -2,8 +2,9 @@
    referenced and valid, no later than the last reference / the context / the validity goes away; at that moment the
    target container no longer holds the value and every reference callback has been told it is gone.
    Statements only.  All theorems are about the gate-level model RefCount.Model (REPAIRED code) and quantify over ALL
-   event lists; [wf_ev]: a resolver call on goroutine g returns the generation-unique value g+1 and never
-   context.Canceled (the codec produces only such events: codec_only_wf_returns below).
+   event lists; [wf_ev]: a resolver call on goroutine g returns the generation-unique value g+1 - or, only together with
+   an error, the empty value 0 (`return zero, rel, err`: [val_ok]) - and never context.Canceled (the codec produces only
+   such events: codec_only_wf_returns below).
    The log [rellog] records every call of a release function: which one ([rc_id] = the goroutine that returned it),
    the value it belongs to, the target container's content at that moment, and how many references in the set had
    last been told that this value is current. *)
@@ -17,12 +18,17 @@ Theorem c08_release_at_most_once : forall ku es, Forall wf_ev es ->
 Proof. exact release_at_most_once. Qed.
 Print Assumptions c08_release_at_most_once.
 
-(* at the moment a release function runs: it is the release function of value g+1, the target container does not hold
-   that value, no reference in the set still believes it current; it was really returned by goroutine g, which has ended *)
+(* at the moment a release function runs: it is the release function of the result of goroutine g (value g+1, or the
+   empty value that came with an error), the target container does not hold value g+1 - hence not the released value
+   unless that is the empty one, which no container ever "holds" -, no reference in the set still believes the result
+   current; it was really returned by goroutine g, which has ended.
+   (With `rc_target c <> rc_val c` for every entry, as stated before empty error values were admitted, the theorem is false:
+   [ESetCtx 1; EAddRef 1; EProceed 0 true; EResReturn 0 0 true 2; EStore 0; ESetCtx 0] logs
+   {| rc_id := 0; rc_val := 0; rc_target := 0; rc_stale := 0 |}: example c08_example_error_empty_released below.) *)
 Theorem c08_at_release_target_clear_and_refs_told : forall ku es, Forall wf_ev es ->
   let s := run repaired (init ku) es in
   forall c, In c (rellog s) ->
-    rc_val c = S (rc_id c) /\ rc_target c <> rc_val c /\ rc_stale c = 0 /\
+    (rc_val c = S (rc_id c) \/ rc_val c = 0) /\ rc_target c <> S (rc_id c) /\ (rc_val c <> 0 -> rc_target c <> rc_val c) /\ rc_stale c = 0 /\
     rc_id c < length (gs s) /\ gdone (getg s (rc_id c)) = true /\ grel (getg s (rc_id c)) = true.
 Proof. exact at_release_target_clear_and_refs_told. Qed.
 Print Assumptions c08_at_release_target_clear_and_refs_told.
@@ -43,7 +49,8 @@ Theorem c08_no_leak : forall ku es, Forall wf_ev es ->
   let s := run repaired (init ku) es in
   forall g, g < length (gs s) -> grel (getg s g) = true -> ~ In g (map rc_id (rellog s)) ->
     (exists v e, gpcv (getg s g) = GStore v true e) \/
-    (vrel s = Some g /\ resolved s = true /\ value s = S g /\ kctx s <> 0 /\ (nrefs s > 0 \/ (keep s = true /\ verr s = 0))).
+    (vrel s = Some g /\ resolved s = true /\ (value s = S g \/ (value s = 0 /\ verr s <> 0)) /\ kctx s <> 0 /\
+     (nrefs s > 0 \/ (keep s = true /\ verr s = 0))).
 Proof. exact no_leak. Qed.
 Print Assumptions c08_no_leak.
 
@@ -73,13 +80,17 @@ Theorem c08_release_only_when_invalidated_or_unreferenced : forall ku es e, Fora
 Proof. intros ku es e Hwf. exact (step_log _ e (run_inv ku es Hwf)). Qed.
 Print Assumptions c08_release_only_when_invalidated_or_unreferenced.
 
-(* a result waiting at its store gate has not been handed to anybody: not in the target container, not the stored
-   value, not the last notification of any reference *)
+(* a result waiting at its store gate has not been handed to anybody: nothing is stored at all at that moment (every other
+   resolve goroutine has finished and the newest generation is this one or a later one), the target container is empty, no
+   reference in the set has a result as its last notification, and no reference was ever told this generation's value g+1.
+   (As stated before empty error values were admitted - v = g+1, target <> v, value <> v, no rlast = NRes v _ - it is false
+   for v = 0: after [ESetCtx 1; EAddRef 1; EProceed 0 true; EResReturn 0 0 false 2] the target holds 0 = v.) *)
 Theorem c08_pending_value_not_in_circulation : forall ku es, Forall wf_ev es ->
   let s := run repaired (init ku) es in
   forall g v hr e, g < length (gs s) -> gpcv (getg s g) = GStore v hr e ->
-    v = S g /\ target s <> v /\ (resolved s = true -> value s <> v) /\
-    (forall r x er, nth_error (refs s) r = Some x -> rlast x <> Some (NRes v er)).
+    (v = S g \/ (v = 0 /\ e <> 0)) /\ resolved s = false /\ target s = 0 /\
+    (forall r x er, nth_error (refs s) r = Some x -> rlast x <> Some (NRes (S g) er)) /\
+    (forall r x v' e', nth_error (refs s) r = Some x -> rin x = true -> rlast x <> Some (NRes v' e')).
 Proof. exact pending_value_not_in_circulation. Qed.
 Print Assumptions c08_pending_value_not_in_circulation.
 
@@ -93,11 +104,15 @@ Proof. exact cancel_phase_cancels. Qed.
 Print Assumptions c08_release_order.
 
 (* the codec of the correspondence produces only well-formed resolver returns (except in the constant-value configuration,
-   which exists for the Access clauses of C10 only) *)
+   which exists for the Access clauses of C10 only); the fifth field z = 1 is the empty value, accepted only with an error *)
 Theorem codec_only_wf_returns : forall h g hr er h' o,
   hconst h = false -> hstep h [8%N; g; hr; er] = Some (h', o) -> exists e, wf_ev e /\ hs h' = settle (step repaired (hs h) e).
 Proof. exact codec_resreturn_wf. Qed.
+Theorem codec_only_wf_returns5 : forall h g hr er z h' o,
+  hconst h = false -> hstep h [8%N; g; hr; er; z] = Some (h', o) -> exists e, wf_ev e /\ hs h' = settle (step repaired (hs h) e).
+Proof. exact codec_resreturn5_wf. Qed.
 Print Assumptions codec_only_wf_returns.
+Print Assumptions codec_only_wf_returns5.
 
 (* ---- non-vacuity ---- *)
 Definition ex_last_release : list ev :=
@@ -107,6 +122,22 @@ Example c08_example_last_reference_released :
   let s := run repaired (init false) ex_last_release in
   rellog s = [{| rc_id := 0; rc_val := 1; rc_target := 0; rc_stale := 0 |}] /\ vrel s = None /\ target s = 0.
 Proof. split; [repeat constructor; discriminate | vm_compute; repeat split; reflexivity]. Qed.
+
+(* an error that came with the empty value and a release function: the invalidation (ClearContext) tells the reference
+   "gone" and then calls the release function; the target container was and stays empty *)
+Definition ex_error_empty : list ev :=
+  [ESetCtx 1; EAddRef 1; EProceed 0 true; EResReturn 0 0 true 2; EStore 0].
+Example c08_example_error_empty_released :
+  Forall wf_ev ex_error_empty /\
+  let s := run repaired (init false) ex_error_empty in
+  resolved s = true /\ value s = 0 /\ verr s = 2 /\ target s = 0 /\ terr s = 2 /\ map rlast (refs s) = [Some (NRes 0 2)] /\ vrel s = Some 0 /\
+  let s' := step repaired s (ESetCtx 0) in
+  rellog s' = [{| rc_id := 0; rc_val := 0; rc_target := 0; rc_stale := 0 |}] /\ map rlast (refs s') = [Some NGone] /\ terr s' = 0.
+Proof.
+  split; [|vm_compute; repeat split; reflexivity].
+  unfold ex_error_empty.
+  repeat (apply Forall_cons; [first [exact I | split; [right; split; [reflexivity | discriminate] | discriminate]]|]). apply Forall_nil.
+Qed.
 
 (* keep-unreferenced: the value survives the last Release; ClearContext releases it *)
 Example c08_example_keep_unreferenced :
